@@ -203,11 +203,18 @@ def _sep_spec(draw, d, depth="any"):
 
 @st.composite
 def _npt_spec(draw, d):
-    cores = ["pure", "pure", "maxent"] + (["antisym"] if d[0] == d[1] else [])
+    # weak:t = weakly entangled pure core (seeded change C15-c1 - a two-qubit shortcut testing det(PT) >= -tol - was missed
+    # while every entangled core had Schmidt coefficients >= 0.1: det(PT) ~ -t^4 is inside the tolerance for t <= 0.01)
+    cores = ["pure", "pure", "maxent", "weak:0.002", "weak:0.005", "weak:0.01", "weak:0.02"] + (["antisym"] if d[0] == d[1] else [])
+    core = draw(st.sampled_from(cores))
+    if core.startswith("weak"):
+        # lambda_min(PT) = -sin t cos t >= -0.02: only noise levels that keep the margin of 1e-3 are meaningful
+        return {"fam": "npt", "d": list(d), "core": core, "noise": draw(st.sampled_from(["id", "sep"])),
+                "m": draw(st.sampled_from([0.0, 0.0, 1.5e-3])), "cplx": draw(st.booleans()), "seed": draw(gen.SEED)}
     return {
         "fam": "npt",
         "d": list(d),
-        "core": draw(st.sampled_from(cores)),
+        "core": core,
         "noise": draw(st.sampled_from(["id", "sep"])),
         "m": draw(st.sampled_from([0.0, 1.5e-3, 5e-3, 0.02, 0.08])),
         "cplx": draw(st.booleans()),
